@@ -621,6 +621,8 @@ func ruleTabCLI(c *Ctx, r *Rep) {
 	}
 	// uses: strat |= const under guard **field
 	bitOf := map[*types.Var][]int64{}
+	tableBits := map[int64]bool{}
+	tableOrs := map[*ssa.BinOp]bool{}
 	var orInstrs []*ssa.BinOp
 	for _, fn := range c.Funcs {
 		if !strings.HasSuffix(fn.Pkg.Pkg.Path(), "/cli") {
@@ -633,6 +635,21 @@ func ruleTabCLI(c *Ctx, r *Rep) {
 					continue
 				}
 				k, ok := bin.Y.(*ssa.Const)
+				if !ok && c.isModNamed("UpdateStrategy")(bin.Type()) {
+					// the table of {flag pointer, bit} walked in a loop: the bit ORed is the bit field of an element, under
+					// the test of the pointer field of the same element
+					if rows, why := c.flagBitTable(bin, b); why == "" {
+						for fld, bit := range rows {
+							bitOf[fld] = append(bitOf[fld], bit)
+							tableBits[bit] = true
+						}
+						tableOrs[bin] = true
+						continue
+					} else if why != "-" {
+						r.Undecided("shape:strategy-bit", c.Pos(bin.Pos()), why)
+						continue
+					}
+				}
 				if !ok || !c.isModNamed("UpdateStrategy")(k.Type()) {
 					continue
 				}
@@ -704,6 +721,11 @@ func ruleTabCLI(c *Ctx, r *Rep) {
 					if x.Op == token.OR {
 						if k, ok := x.Y.(*ssa.Const); ok {
 							got[k.Int64()] = true
+						}
+						if tableOrs[x] {
+							for bit := range tableBits {
+								got[bit] = true
+							}
 						}
 						walk(x.X)
 					}
@@ -781,4 +803,147 @@ func ruleTabCLI(c *Ctx, r *Rep) {
 func isBoolType(t types.Type) bool {
 	b, ok := t.Underlying().(*types.Basic)
 	return ok && b.Kind() == types.Bool
+}
+
+// flagBitTable: `word |= e.bit` under `if *e.ptr`, e ranging over a list of {pointer, bit} entries that is built as a
+// literal whose pointers are read from flag fields and whose bits are constants: the rows as field -> bit. The answer
+// "-" means: not this shape at all.
+func (c *Ctx) flagBitTable(or *ssa.BinOp, b *ssa.BasicBlock) (map[*types.Var]int64, string) {
+	elemOf := func(v ssa.Value) (ssa.Value, int, bool) { // the element a field is read from, and the field's index
+		switch x := v.(type) {
+		case *ssa.UnOp:
+			if fa, ok := x.X.(*ssa.FieldAddr); ok && x.Op == token.MUL {
+				return fa.X, fa.Field, true
+			}
+		case *ssa.Field:
+			return x.X, x.Field, true
+		}
+		return nil, 0, false
+	}
+	elem, bitField, ok := elemOf(or.Y)
+	if !ok {
+		return nil, "-"
+	}
+	// the guard: a load through the pointer field of the same element
+	ptrField := -1
+	for _, g := range guardsOf(b) {
+		if !g.Truth {
+			continue
+		}
+		if u, isLoad := g.Cond.(*ssa.UnOp); isLoad && u.Op == token.MUL {
+			if e2, f2, ok2 := elemOf(u.X); ok2 && e2 == elem {
+				ptrField = f2
+			}
+		}
+	}
+	if ptrField < 0 {
+		return nil, "a strategy bit read from a table entry is ORed without a test of that entry's flag pointer"
+	}
+	// the element: of a list that is ranged over; the list: what a module function returns as a literal, or a local literal
+	var list ssa.Value
+	switch x := elem.(type) {
+	case *ssa.IndexAddr:
+		list = x.X
+	case *ssa.UnOp:
+		if ia, isIa := x.X.(*ssa.IndexAddr); isIa && x.Op == token.MUL {
+			list = ia.X
+		}
+	}
+	if al, isAl := elem.(*ssa.Alloc); isAl && list == nil {
+		// the loop variable: a local that each element is copied into
+		n := 0
+		for _, ref := range *al.Referrers() {
+			if st, isSt := ref.(*ssa.Store); isSt && st.Addr == ssa.Value(al) {
+				n++
+				if ld, isLd := st.Val.(*ssa.UnOp); isLd && ld.Op == token.MUL {
+					if ia, isIa := ld.X.(*ssa.IndexAddr); isIa {
+						list = ia.X
+					}
+				}
+			}
+		}
+		if n != 1 {
+			list = nil
+		}
+	}
+	if list == nil {
+		return nil, "the table entry is not an element of a list"
+	}
+	var literal *ssa.Alloc
+	var find func(v ssa.Value, depth int)
+	find = func(v ssa.Value, depth int) {
+		if depth > 4 || v == nil {
+			return
+		}
+		switch x := v.(type) {
+		case *ssa.Slice:
+			if al, isAl := x.X.(*ssa.Alloc); isAl {
+				literal = al
+			}
+		case *ssa.Call:
+			if g := x.Call.StaticCallee(); g != nil && c.InModule(g) && g.Blocks != nil {
+				for _, ret := range returnsOf(g) {
+					if rr := retResults(ret); len(rr) == 1 {
+						find(rr[0], depth+1)
+					}
+				}
+			}
+		}
+	}
+	find(list, 0)
+	if literal == nil {
+		return nil, "the list of table entries is not a literal"
+	}
+	type row struct {
+		fld *types.Var
+		bit *ssa.Const
+	}
+	rows := map[int64]*row{}
+	for _, ref := range *literal.Referrers() {
+		ia, isIa := ref.(*ssa.IndexAddr)
+		if !isIa {
+			continue
+		}
+		k, isK := ia.Index.(*ssa.Const)
+		if !isK {
+			return nil, "an entry of the table is stored at a computed index"
+		}
+		rw := rows[k.Int64()]
+		if rw == nil {
+			rw = &row{}
+			rows[k.Int64()] = rw
+		}
+		for _, r2 := range *ia.Referrers() {
+			fa, isFa := r2.(*ssa.FieldAddr)
+			if !isFa {
+				continue
+			}
+			for _, r3 := range *fa.Referrers() {
+				st, isSt := r3.(*ssa.Store)
+				if !isSt || st.Addr != ssa.Value(fa) {
+					continue
+				}
+				switch fa.Field {
+				case ptrField:
+					rw.fld = fieldLoad(st.Val)
+				case bitField:
+					rw.bit, _ = st.Val.(*ssa.Const)
+				}
+			}
+		}
+	}
+	out := map[*types.Var]int64{}
+	for _, rw := range rows {
+		if rw.fld == nil || rw.bit == nil || rw.bit.Value == nil {
+			return nil, "an entry of the table is not {flag field, constant bit}"
+		}
+		if _, dup := out[rw.fld]; dup {
+			return nil, "a flag occurs twice in the table"
+		}
+		out[rw.fld] = rw.bit.Int64()
+	}
+	if len(out) == 0 {
+		return nil, "the table has no entries"
+	}
+	return out, ""
 }
